@@ -26,16 +26,17 @@ def embedRule (r : OutRule) : Item := .rule (joinSels r.sels) (r.decls.map Item.
 def embed (out : List OutRule) : List Item := out.map embedRule
 
 /-- canonical (already rooted) selector — one that is read back token by token: non-empty, no `,` `&`
-    `*` tokens, no raw combinator tokens, no token that merely looks encoded, no `" "` at either end,
+    `*` tokens, no raw combinator tokens, no token of the shape `?c?` that is not an encoded combinator
+    (a token merely containing `?`, like `[h="?"]`, is fine), no `" "` at either end,
     next to an encoded combinator or next to another `" "` (the printer collapses a double space, so a
     selector with two adjacent `" "` would be read back with one) -/
 def canonTok (t : Tok) : Bool :=
-  t != "," && t != "&" && t != "*" && !isComb t && (isEnc t || !hasQ t)
+  t != "," && t != "&" && t != "*" && !isComb t && (isEnc t || !isEncLike t)
 
 def noSpaceBeforeEnc : Sel → Bool
   | [] => true
   | [t] => t != " "
-  | t :: u :: r => !(t == " " && hasQ u) && noSpaceBeforeEnc (u :: r)
+  | t :: u :: r => !(t == " " && isEncLike u) && noSpaceBeforeEnc (u :: r)
 
 def noSpaceAfterEnc : Sel → Bool
   | [] => true
@@ -62,8 +63,8 @@ def CanonOut (out : List OutRule) : Bool :=
       starting with a space, no space between a combinator and its right operand (the lexer drops it);
     * `,` after `,` (or at the start) and after a combinator — also at the virtual end: every
       comma-separated part is non-empty and does not end in a combinator.
-  Tokens: no `*` (it is rewritten to `"* "`, which is not read back as one token), no token containing
-  `?`, and no `&` in a top-level rule. -/
+  Tokens: no `*` (it is rewritten to `"* "`, which is not read back as one token), no token of the
+  shape `?c?` (`isEncLike`; tokens that merely contain a `?` are allowed), and no `&` in a top-level rule. -/
 def srcPair (a b : Tok) : Bool :=
   !(b == " " && (a == " " || a == "," || isComb a)) && !(b == "," && (a == "," || isComb a))
 
@@ -71,7 +72,7 @@ def srcChain (a : Tok) : List Tok → Bool
   | [] => true
   | b :: r => srcPair a b && srcChain b r
 
-def srcTok (top : Bool) (t : Tok) : Bool := t != "*" && !hasQ t && (!top || t != "&")
+def srcTok (top : Bool) (t : Tok) : Bool := t != "*" && !isEncLike t && (!top || t != "&")
 
 def selOK (top : Bool) (toks : List Tok) : Bool :=
   toks.all (srcTok top) && srcChain "," (toks ++ [","])
